@@ -691,3 +691,55 @@ UNITS += [
          assumptions=["fma(a,b,c) == c when a factor is zero and 0/b == 0 (IEEE facts, assumed); the general value of fma and of the slope quotient is uninterpreted: interpolation accuracy inside a bin is NOT decided"],
          note="LinearInterpolator (constructor + operator(), real extracted bodies): exact value at the left knot of the bin and exact reproduction of a flat bin, for all finite tables; the constructor's EXPECT/ENSURE hold"),
 ]
+
+
+# ---------------------------------------------------------------------------
+# find_sorted: binary search for an element (built on lower_bound)
+# ---------------------------------------------------------------------------
+def build_find_sorted(ctx):
+    pc = ctx.func(ALGO, r"^find_sorted\(ForwardIt first, ForwardIt last, T const& value, Compare comp\)", [
+        Rule(r"auto iter = (?:::celeritas::)?lower_bound\(first, last, value, comp\);", "T const* iter = lower_bound_impl(first, last, value);", 1, note="celeritas::lower_bound forwards to lower_bound_impl (contract: c18_lower_bound_u)"),
+        Rule(r"\bcomp\(([^(),]*), ([^(),]*)\)", r"((\1) < (\2))", "+", note="Compare functor call -> Less<>: a < b"),
+    ], name="celeritas::find_sorted")
+    return (HDR + """#include <stddef.h>
+#include <stdlib.h>
+typedef unsigned T; typedef T const* ForwardIt;
+size_t g_n; T const* g_a; size_t g_k;     /* the sorted range, a witness index */
+size_t nondet_size_t(void);
+/* lower_bound_impl by its c18_lower_bound_u contract (witness instances at r-1, r and at the witness g_k); precondition instance: sorted between g_k and r */
+static T const* lower_bound_impl(T const* first, T const* last, T value)
+{
+    __CPROVER_assert(first == g_a && last == g_a + g_n, "lower_bound_impl.precondition: whole range");
+    size_t r = nondet_size_t();
+    __CPROVER_assume(r <= g_n);
+    __CPROVER_assume(r > 0 ? g_a[r - 1] < value : 1);
+    __CPROVER_assume(r < g_n ? !(g_a[r] < value) : 1);
+    __CPROVER_assume(g_k < g_n ? (g_k < r ? g_a[g_k] < value : !(g_a[g_k] < value)) : 1);
+    __CPROVER_assume((g_k < g_n && r < g_n) ? (g_k <= r ? !(g_a[r] < g_a[g_k]) : !(g_a[g_k] < g_a[r])) : 1);      /* sortedness instance (g_k, r) */
+    return g_a + r;
+}
+T const* find_sorted(ForwardIt first, ForwardIt last, T value)
+__CPROVER_requires(g_n <= 1000000 && first == g_a && last == g_a + g_n && __CPROVER_r_ok(g_a, g_n * sizeof(T)))
+__CPROVER_assigns()
+/* either `last`, or an iterator to an element equal to the value */
+__CPROVER_ensures(__CPROVER_return_value == g_a + g_n || (__CPROVER_same_object(__CPROVER_return_value, g_a) && __CPROVER_return_value >= g_a && __CPROVER_return_value < g_a + g_n && *__CPROVER_return_value == value))
+/* and `last` is returned only if NO element equals the value (witness g_k arbitrary) */
+__CPROVER_ensures((__CPROVER_return_value == g_a + g_n && g_k < g_n) ==> g_a[g_k] != value)
+{""" + pc.body + """}
+void h_fs(void)
+{
+    T v; size_t n, k; __CPROVER_assume(n <= 1000000);
+    T* a = malloc(n * sizeof(T)); __CPROVER_assume(a != 0);
+    g_a = a; g_n = n; g_k = k;
+    find_sorted(a, a + n, v);
+    VERIF_CANARY();
+}
+""")
+
+
+UNITS += [
+    Unit("c18_find_sorted", build_find_sorted, "h_fs", enforce="find_sorted", timeout=300, backend=["sat", "cvc5"],
+         must_have=[r"find_sorted.postcondition", r"lower_bound_impl.precondition"], checks=["--bounds-check", "--pointer-check"], replay=REPLAY_ALGO,
+         assumptions=["lower_bound_impl by its c18_lower_bound_u contract (witness instances)", "range sorted (precondition, used at one instance)"],
+         note="find_sorted<unsigned>: returns an iterator to an element equal to the value, and `last` only when no element equals it; any length"),
+]
